@@ -40,7 +40,6 @@ import (
 	"context"
 	"errors"
 	"fmt"
-	"io"
 	"net"
 	"net/http"
 	"os"
@@ -413,13 +412,13 @@ type wclient struct {
 	id    int
 	local string // local address of the connection that carries the media (FLV: how the registration is found)
 
-	rc  *rtspc.Client       // tcp, udp (control connection), ws
-	udp [4]*net.UDPConn     // udp: one socket per ipchub channel
-	ctl, data *wsPeer       // wsp
-	dataRead  int           // wsp: data messages already turned into items
+	rc        *rtspc.Client   // tcp, udp (control connection), ws
+	udp       [4]*net.UDPConn // udp: one socket per ipchub channel
+	ctl, data *wsPeer         // wsp
+	dataRead  int             // wsp: data messages already turned into items
 	ctlSeq    int
 	rtspSess  string
-	flvWS     *wsPeer       // wsflv
+	flvWS     *wsPeer // wsflv
 	flvRead   int
 	httpConn  net.Conn      // httpflv
 	httpDone  chan struct{} // closed when the body reader ended
@@ -816,7 +815,11 @@ func (c *wclient) poll() {
 	}
 }
 
-func (c *wclient) flvBytes() []byte { c.mu.Lock(); defer c.mu.Unlock(); return append([]byte(nil), c.flv...) }
+func (c *wclient) flvBytes() []byte {
+	c.mu.Lock()
+	defer c.mu.Unlock()
+	return append([]byte(nil), c.flv...)
+}
 
 // leave ends the client: TEARDOWN (RTSP family, when planned) or a plain close.
 func (c *wclient) leave(s *srv.Server, path string, teardown bool) {
@@ -1423,8 +1426,6 @@ func fromAttach(pl *wplan, c wclientPlan, l []int) []int {
 	}
 	return out
 }
-
-var _ = io.EOF
 
 // TestWirePlayAnswerThenPublish is the minimal witness of the attach point of the
 // RTSP family: a packet published right after the client has read the 200 to
